@@ -19,7 +19,7 @@ try:
         if det == "no":
             print(f"{m['id']:14s} skipped (recorded as not covered)")
             continue
-        by = re.search(r"by (C\d\d)", det)
+        by = re.search(r"by (C\d\d)", det) or re.match(r"(C\d\d)", det)
         props = [by.group(1)] if by else [m["property"]]
         if det == "partial":
             props = ["C03"]
